@@ -136,7 +136,9 @@ fn gen_package(seed: u64, dst: &Path) {
             _ => s.push_str(&format!("    C{i}: str[{}] = __to_str_array(\"{}\"),\n", 4 + i, "abcdefghijklmnop"[..4 + i].to_string())),
         }
     }
-    s.push_str("}\n\nstorage {\n");
+    s.push_str("}\n\n");
+    let idx_contract_only = s.len();
+    s.push_str("storage {\n");
     for i in 0..n_store {
         match rng.below(3) {
             0 => s.push_str(&format!("    v{i}: u64 = {},\n", rng.next_u64() % 1000)),
@@ -151,6 +153,7 @@ fn gen_package(seed: u64, dst: &Path) {
         s.push_str(&format!("    #[storage(read, write)]\n    fn f{i}(x: u64, s: S{t}) -> E{t};\n"));
     }
     s.push_str("}\n\n");
+    let idx_helpers = s.len();
     // near-duplicate private helpers
     let n_dups = rng.range(3, 9);
     for i in 0..n_dups {
@@ -181,6 +184,7 @@ fn gen_package(seed: u64, dst: &Path) {
         s.push_str(&format!("    acc = acc + a{i};\n"));
     }
     s.push_str("    acc\n}\n\n");
+    let idx_impl = s.len();
     s.push_str("impl Gen for Contract {\n");
     for i in 0..n_fns {
         let t = i % n_structs;
@@ -193,6 +197,20 @@ fn gen_package(seed: u64, dst: &Path) {
         ));
     }
     s.push_str("}\n");
+    // two in five generated packages are a script or a predicate instead (script hash / predicate root are derived
+    // from the bytecode): same types, configurables and helpers, no storage / ABI, a `main` that uses the helpers
+    let kind = rng.below(5);
+    if kind >= 3 {
+        let lit = format!("0x{:064x}", rng.next_u64());
+        let body = format!("    let y = helper0(x) + heavy(x);\n    let k: b256 = if x > 9 {{ branchy(x) }} else {{ {lit} }};\n");
+        let main = if kind == 3 {
+            format!("fn main(x: u64) -> u64 {{\n{body}    if k == {lit} {{ y }} else {{ y + 1 }}\n}}\n")
+        } else {
+            format!("fn main(x: u64) -> bool {{\n{body}    k == {lit} && y > 7\n}}\n")
+        };
+        let head = s[..idx_contract_only].replacen("contract;", if kind == 3 { "script;" } else { "predicate;" }, 1).replace("use std::storage::storage_vec::*;\n", "");
+        s = format!("{head}{}{main}", &s[idx_helpers..idx_impl]);
+    }
     write_file(&dst.join("src/main.sw"), s.as_bytes());
     write_file(
         &dst.join("Forc.toml"),
